@@ -24,8 +24,8 @@ type C03Case struct {
 	BufSize int    `json:"bufsize,omitempty"`
 	EOFData bool   `json:"eof_with_data,omitempty"`
 	// ZeroReads > 0 (reader entry points): one Read in ZeroReads answers (0, nil) first
-	ZeroReads int `json:"zero_reads,omitempty"`
-	Kind    string `json:"kind,omitempty"`
+	ZeroReads int    `json:"zero_reads,omitempty"`
+	Kind      string `json:"kind,omitempty"`
 	// Scale: the case is a SCALING probe — the document is built from (format,
 	// family, n) at sizes n and 4n and fed in tiny pieces (Entry: write1 |
 	// reader3 | decoder3); Data is unused
